@@ -82,6 +82,11 @@ func Load(text string, ios bool) *Dev {
 			continue
 		}
 		if line[0] != ' ' {
+			if w := strings.Fields(line); ios && len(w) == 3 && w[0] == "interface" && (w[2] == "point-to-point" || w[2] == "multipoint") {
+				// the type of a sub-interface is shown behind its name; the
+				// interface is addressed by its name alone
+				line = w[0] + " " + w[1]
+			}
 			cur = &Entry{Line: norm(line)}
 			d.Entries = append(d.Entries, cur)
 			continue
@@ -645,6 +650,11 @@ func (d *Dev) Exec(line string) error {
 		return nil
 	}
 	w := fields(line)
+	if d.IOS && len(w) == 3 && w[0] == "interface" && (w[2] == "point-to-point" || w[2] == "multipoint") {
+		// an existing sub-interface may be entered with its type
+		line = w[0] + " " + w[1]
+		w = w[:2]
+	}
 	neg := false
 	body := w
 	if w[0] == "no" && len(w) > 1 {
